@@ -207,13 +207,25 @@ class QueryPlanner:
         # projects = set()
         integrations = set()
 
+        # names of the common table expressions that are defined inside of the query
+        cte_names = set()
+
         def find_objects(node, is_table, **kwargs):
             if isinstance(node, Function):
                 if node.namespace is not None or node.op.lower() in ('llm',):
                     user_functions.append(node)
 
+            if isinstance(node, Select) and node.cte is not None:
+                # is called before the expressions and the references to them are visited
+                for cte in node.cte:
+                    cte_names.add(cte.name.parts[-1])
+
             if is_table:
                 if isinstance(node, ast.Identifier):
+                    if len(node.parts) == 1 and node.parts[0] in cte_names:
+                        # cte names are not mdb objects and not tables: the tables are inside of the expression
+                        return
+
                     integration, _ = self.resolve_database_table(node)
 
                     if self.is_predictor(node):
@@ -229,18 +241,6 @@ class QueryPlanner:
                     mdb_entities.append(node)
 
         query_traversal(query, find_objects)
-
-        # cte names are not mdb objects
-        if isinstance(query, Select) and query.cte:
-            cte_names = [
-                cte.name.parts[-1]
-                for cte in query.cte
-            ]
-            mdb_entities = [
-                item
-                for item in mdb_entities
-                if '.'.join(item.parts) not in cte_names
-            ]
 
         return {
             'mdb_entities': mdb_entities,
